@@ -10,6 +10,11 @@ TV : the real clck_gen.py (start/stop/_worker/send_clck_ind unmodified) runs on 
      where the time of every tick is computed by the specification.
 GEN: behaviours simulated by TLC from ClckGen (SIM_ClckGen.cfg) are replayed into
      the real code and judged by the same trace spec.
+THREADS (threads_stage): the two-thread view.  spec/ClckGenThreads.tla (controller calling
+     stop()/start() at ANY instant, also inside a handler, against the worker thread) is
+     model-checked; the real start/stop/_worker/send_clck_ind run on real Python threads under
+     the discrete-event simulator harness/py/vthreads.py (join(timeout), Event.wait(timeout)
+     on virtual time) and their event logs are validated against ClckGenThreadsTrace.tla.
 """
 import copy
 import importlib.util
@@ -433,3 +438,504 @@ def run(ctx):
                 "ClckGen, executed by the real CLCKGen on virtual time; non-trivial = at least one handler call; "
                 "distinct by (start, period, links, duration-class string, stop point) per epoch")
     ctx.evaluations = len(scripts)
+    app_sessions(ctx)
+    threads_stage(ctx)
+
+
+def app_sessions(ctx):
+    """The clock generator inside the application: the indications that reach the clock links of
+    the real fake_trx.Application (power histories over 7 wirings, several transceivers joining and
+    leaving a running clock) leave only from ticks whose frame number is a multiple of the period."""
+    from . import c12
+    from . import faketrx_common as FC
+    traces = [c12.session(ctx, "a%d" % k) for k in range(ctx.pick(60, 1500))]
+    FC.validate(ctx, traces, ("C09.", "C12.clock-indications"), "TV FakeTrxTrace (clock indications of the real Application)")
+    ctx.extra["application_sessions"] = len(traces)
+    ctx.extra["application_ticks"] = sum(1 for t in traces for e in t["ev"] if e["e"] == "tick")
+
+
+# ============================================================ two-thread view
+def load_vthreads():
+    path = os.path.join(ROOT, "harness", "py", "vthreads.py")
+    spec = importlib.util.spec_from_file_location("vf_vthreads", path)
+    mod = importlib.util.module_from_spec(spec)
+    spec.loader.exec_module(mod)
+    return mod
+
+
+def th_durations(T):
+    """Named handler durations: short; just below / at / above one period; 2.5, 3, > 10 and > 25 periods."""
+    return dict(short=1000, half=T // 2, below=T - 1, equal=T, above=T + 1, x2_5=(5 * T) // 2, x3=3 * T,
+                x10=10 * T + T // 2, x25=25 * T + 3)
+
+
+def th_phases(d, T):
+    """Named instants (ns after the handler call of a tick whose handler takes d) for a stop():
+    start / middle / end of the handler, the sleep, the instant of the next tick (+-1 ns)."""
+    nxt = max(d, T)                 # next tick: one period later, or at the handler's return after an overrun
+    ph = {"h-start": 0, "h-mid": d // 2, "h-end-1": max(0, d - 1), "h-end": d, "h-end+1": d + 1,
+          "tick-1": nxt - 1, "tick": nxt, "tick+1": nxt + 1}
+    if d < T - 4:
+        ph["sleep"] = d + (T - d) // 2
+    return ph
+
+
+TH_PERIODS = [1, 2, 3, 4, 5, 13, 26, 51, 102]
+TH_GAPS = lambda T: [0, 0, 1, T // 3, T, 5 * T + 7]
+
+
+def th_start_frame(rng, period):
+    r = rng.random()
+    if r < 0.35:
+        return HYPER - rng.randint(1, 4)                       # 2715644..2715647: the wrap is inside the run
+    if r < 0.5:
+        return 0
+    if r < 0.8:
+        return max(0, min(HYPER - 1, rng.randrange(HYPER // period) * period - rng.randint(0, 3)))
+    return rng.randrange(HYPER)
+
+
+def th_epoch_ops(rng, T, durs, stop_when, first, gap=0, dflt=1000, relink=None, double_stop=False):
+    """start ... stop of one epoch.  stop_when: dict(tick=k, off=ns) or dict(dt=ns)."""
+    period = rng.choice(TH_PERIODS[:4]) if rng.random() < 0.7 else rng.choice(TH_PERIODS)
+    when = dict(at=first) if first is not None else dict(dt=gap)
+    ops = [dict(op="start", fn=th_start_frame(rng, period), period=period, links=gen_links(rng),
+                durs=list(durs), dflt=dflt, **when)]
+    if relink is not None:
+        ops.append(dict(op="links", links=gen_links(rng), **relink))
+    ops.append(dict(op="stop", **stop_when))
+    if double_stop:
+        ops.append(dict(op="stop", dt=rng.choice([0, 7, T])))
+    return ops
+
+
+def th_finish(script, T):
+    """Tail long enough for a worker that outlives stop() to show itself (longest handler + 3 periods) and a
+    cap on virtual time of about twice what the script needs (a runaway generator is cut there)."""
+    longest = max([T] + [d for op in script["ops"] for d in op.get("durs", [])] + [op.get("dflt", 0) for op in script["ops"]])
+    need = script.get("t0", 0)
+    for op in script["ops"]:
+        need += op.get("at", 0) + op.get("dt", 0) + op.get("off", 0) + sum(max(d, T) for d in op.get("durs", [])) + 2 * T
+    script["tail"] = longest + 3 * T
+    script["limit"] = min(BUDGET, 2 * (need + script["tail"]) + 40 * T)
+    return script
+
+
+def th_systematic(rng, T):
+    """Every (duration of the handler that stop() meets) x (phase) x (tie order), followed by a restart
+    after a varying gap and a second stop at another phase."""
+    D = th_durations(T)
+    out = []
+    n = 0
+    for dname, d in D.items():
+        for pname, off in th_phases(d, T).items():
+            for tie in ("ctl-first", "ctl-last"):
+                if tie == "ctl-last" and pname not in ("h-start", "h-end", "tick"):
+                    continue                   # the tie order matters only where two threads are due together
+                pre = [rng.choice(list(D.values())[:5]) for _ in range(rng.randint(0, 3))]
+                ops = th_epoch_ops(rng, T, pre + [d], dict(tick=len(pre) + 1, off=off),
+                                   first=rng.choice([0, 1, 999, rng.randrange(10 ** 7)]))
+                d2name = rng.choice(list(D)[:8])
+                d2 = D[d2name]
+                pre2 = [rng.choice([1000, T // 2, T - 1, T + 1]) for _ in range(rng.randint(1, 4))]
+                p2 = rng.choice(sorted(th_phases(d2, T).items()))
+                gap = TH_GAPS(T)[n % len(TH_GAPS(T))]
+                ops += th_epoch_ops(rng, T, pre2 + [d2], dict(tick=len(pre2) + 1, off=p2[1]), first=None, gap=gap,
+                                    double_stop=(n % 7 == 3))
+                out.append(th_finish(dict(id="t%d-%s-%s-%s" % (n, dname, pname, tie[4:]), t0=rng.choice([0, 5, 123456789]),
+                                          tie=tie, ops=ops, kind=[dname, pname, tie, gap]), T))
+                n += 1
+    return out
+
+
+def th_random(rng, sid, T):
+    D = th_durations(T)
+    names = list(D)
+    ops = []
+    kind = []
+    for e in range(rng.choice([1, 2, 2, 3, 3])):
+        n = rng.choice([0, 1, 1, 2, 3, 4, 6, 9])
+        style = rng.choice(["short", "near", "mixed", "over", "long-last"])
+        durs = []
+        for i in range(n):
+            if style == "short":
+                durs.append(rng.choice([0, 1, 1000, rng.randrange(T // 2)]))
+            elif style == "near":
+                durs.append(rng.choice([T - 2, T - 1, T, T + 1, T + 2, T // 2]))
+            elif style == "mixed":
+                durs.append(D[rng.choice(names[:7])])        # up to 3 periods
+            elif style == "over":
+                durs.append(rng.randrange(T + 1, 4 * T))
+            else:
+                durs.append(rng.randrange(T))
+        if n and style == "long-last":
+            durs[-1] = rng.choice([D["x2_5"], D["x3"], D["x10"], D["x25"], rng.randrange(2 * T + 1, 12 * T)])
+        relink = None
+        if n == 0:
+            when = dict(dt=rng.choice([0, 1, T // 2, T - 1, T, T + 1]))           # stop() before / at the first tick
+        else:
+            d = durs[-1]
+            offs = sorted(set(th_phases(d, T).values()))
+            off = rng.choice(offs) if rng.random() < 0.6 else rng.randrange(0, max(d, T) + T)
+            when = dict(tick=n, off=off)
+            if rng.random() < 0.3:
+                k = rng.randint(1, n)
+                relink = dict(tick=k, off=rng.randrange(0, off + 1) if k == n else rng.randrange(0, T))
+        gap = rng.choice(TH_GAPS(T) + [rng.randrange(3 * T)])
+        ops += th_epoch_ops(rng, T, durs, when, first=(rng.choice([0, 3, rng.randrange(10 ** 8)]) if e == 0 else None),
+                            gap=gap, dflt=rng.choice([0, 1000, T // 2, T - 1]), relink=relink,
+                            double_stop=rng.random() < 0.12)
+        kind.append([style, n])
+    return th_finish(dict(id=sid, t0=rng.choice([0, 1, 7, rng.randrange(10 ** 8)]), tie=rng.choice(["ctl-first", "ctl-last"]),
+                          ops=ops, kind=kind), T)
+
+
+def th_observe(tr, T):
+    """What a log exercises (for the vacuity guard and the evidence): where the stop() calls fell."""
+    c = dict(ticks=0, inds=0, stop_calls=0, stop_in_sleep=0, stop_in_handler=0, stop_gt2=0, stop_gt10=0,
+             stop_at_tick_instant=0, stop_at_handler_return=0, stop_when_stopped=0, restarts=0, wraps=0,
+             stop_then_start_same_instant=0, relinks=0, workers=tr["cfg"].get("workers", 0))
+    until = {}          # worker -> end of its running handler
+    alive = set()
+    nstart = 0
+    last_tick_t = None
+    last_ret = None
+    ev = tr["ev"]
+    for i, e in enumerate(ev):
+        k = e["e"]
+        if k == "tick":
+            c["ticks"] += 1
+            until[e["worker"]] = e["t"] + e["dur"]
+            alive.add(e["worker"])
+            last_tick_t = e["t"]
+            if e["fn"] == HYPER - 1:
+                c["wraps"] += 1
+        elif k == "ind":
+            c["inds"] += 1
+        elif k == "hret":
+            until.pop(e["worker"], None)
+            if i + 1 < len(ev) and ev[i + 1]["e"] == "stop-call" and ev[i + 1]["t"] == e["t"]:
+                c["stop_at_handler_return"] += 1
+        elif k == "worker-exit":
+            alive.discard(e["worker"])
+        elif k == "start-call":
+            nstart += 1
+            alive.add(nstart)
+            if nstart > 1:
+                c["restarts"] += 1
+            if last_ret == e["t"]:
+                c["stop_then_start_same_instant"] += 1
+        elif k == "links":
+            c["relinks"] += 1
+        elif k == "stop-return":
+            last_ret = e["t"]
+        elif k == "stop-call":
+            c["stop_calls"] += 1
+            if not alive:
+                c["stop_when_stopped"] += 1
+            elif until:
+                rem = max(u - e["t"] for u in until.values())
+                c["stop_in_handler"] += 1
+                if rem > 2 * T:
+                    c["stop_gt2"] += 1
+                if rem > 10 * T:
+                    c["stop_gt10"] += 1
+                if last_tick_t == e["t"]:
+                    c["stop_at_tick_instant"] += 1
+            else:
+                c["stop_in_sleep"] += 1
+                if last_tick_t is not None and (e["t"] - last_tick_t) == T:
+                    c["stop_at_tick_instant"] += 1
+    return c
+
+
+def th_classify(tr, v, T):
+    """Stable signature of a rejected log: clause tag + a discriminator read off the events."""
+    tag = (v["tag"] or "no-action-enabled").replace("C09.", "")
+    ev = tr["ev"]
+    i = v["reached"]
+    bad = ev[i] if i < len(ev) else {}
+    disc = bad.get("e", "")
+    w = bad.get("worker")
+    if tag in ("threads.tick-while-stopped", "threads.single-worker", "threads.tick-after-stop") and w is not None:
+        # where was this worker when the stop() that should have ended it was called?
+        inh = None
+        busy = False
+        for e in ev[:i]:
+            if e.get("worker") == w and e["e"] == "tick":
+                busy = True
+            elif e.get("worker") == w and e["e"] == "hret":
+                busy = False
+            elif e["e"] == "stop-call" and inh is None and any(x.get("worker") == w for x in ev[:ev.index(e)]):
+                inh = busy
+        disc = "worker-met-stop-%s" % ("in-handler" if inh else ("asleep" if inh is not None else "never"))
+    elif tag == "threads.tick-time":
+        if bad.get("e") in ("tick", "ind"):
+            prev = [e for e in ev[:i] if e["e"] == "tick"]
+            if prev and bad["t"] < prev[-1]["t"] + T:
+                disc = "early"
+            else:
+                disc = "off-schedule"
+        else:
+            disc = "tick-missing-before-%s" % bad.get("e", "")
+    elif tag in ("threads.restart-sequence", "threads.consecutive"):
+        first = True
+        for e in reversed(ev[:i]):
+            if e["e"] == "tick":
+                first = False
+            if e["e"] == "start-call":
+                break
+        disc = "first-frame" if first else "step"
+    elif tag == "period":
+        disc = "not-4.615ms"
+    return "C09/%s/%s" % (tag, disc)
+
+
+def th_selftest(tr):
+    """Corrupted copies of an accepted log and the tag each must be rejected with."""
+    ev = tr["ev"]
+    idx = {k: [i for i, e in enumerate(ev) if e["e"] == k] for k in
+           ("tick", "stop-call", "stop-return", "start-call", "hret", "worker-exit", "ind")}
+    if len(idx["start-call"]) < 2 or len(idx["stop-return"]) < 2:
+        return None
+    s2 = idx["start-call"][1]
+    t1 = [i for i in idx["tick"] if i < s2]
+    t2 = [i for i in idx["tick"] if i > s2]
+    sc = idx["stop-call"][0]
+    sr = idx["stop-return"][0]
+    if len(t1) < 3 or len(t2) < 2 or not (t1[-1] < sc < sr < s2) or ev[sc]["t"] >= ev[sr]["t"]:
+        return None
+    if [e["e"] for e in ev[sc:sr + 1]] != ["stop-call", "hret", "worker-exit", "stop-return"] or idx["stop-call"][1] < s2:
+        return None
+    if ev[s2]["t"] - ev[sr]["t"] < 100 or not any(t2[0] < i for i in idx["ind"]):
+        return None
+    out = {}
+
+    def variant(name, expect, f):
+        e2 = copy.deepcopy(ev)
+        f(e2)
+        out["th-selftest-" + name] = (expect, dict(id="th-selftest-" + name, cfg=dict(tr["cfg"]), ev=e2))
+
+    variant("tick-time", "C09.threads.tick-time", lambda e: e[t1[1]].__setitem__("t", e[t1[1]]["t"] + 1))
+    variant("stop-return-dropped", "C09.threads.rig.start-when-stopped", lambda e: e.pop(sr))
+    variant("restart-first-frame", "C09.threads.restart-sequence",
+            lambda e: e[t2[0]].__setitem__("fn", (e[t2[0]]["fn"] + 1) % HYPER))
+    variant("tick-dropped", "C09.threads.tick-time", lambda e: [e.pop(t1[1] + 1), e.pop(t1[1])])
+
+    def zombie_while_stopped(e):
+        # stop() returns two periods after the call although the handler is still running; the old
+        # worker carries on when its handler returns
+        h = e[sc + 1]
+        call = e[sc]["t"]
+        fn = e[t1[-1]]["fn"]
+        w = e[t1[-1]]["worker"]
+        e[sc + 1:sr + 1] = [dict(e="stop-return", t=call + (h["t"] - call) // 2, running=False), h,
+                            dict(e="tick", t=h["t"], worker=w, fn=(fn + 1) % HYPER, dur=0)]
+    variant("zombie-while-stopped", "C09.threads.tick-while-stopped", zombie_while_stopped)
+
+    def zombie_after_restart(e):
+        # ... and the restart arrives before the old handler returned: the old worker ticks next to the new one
+        h = dict(e[sc + 1])
+        call = e[sc]["t"]
+        w = e[t1[-1]]["worker"]
+        shift = e[s2]["t"] - (call + 1)
+        head = e[:sc + 1] + [dict(e="stop-return", t=call + 1, running=False)]
+        rest = [dict(x, t=x["t"] - shift) for x in e[s2:]]
+        first = next(k for k, x in enumerate(rest) if x["e"] in ("tick", "ind"))
+        h["t"] = min(h["t"], rest[first]["t"])
+        e[:] = head + rest[:first] + [h, dict(e="tick", t=h["t"], worker=w, fn=rest[0]["fn"], dur=0)] + rest[first:]
+    if ev[sc + 1]["t"] - ev[sc]["t"] > 10:
+        variant("zombie-after-restart", "C09.threads.single-worker", zombie_after_restart)
+
+    def tick_after_stop(e):
+        w = e[t1[-1]]["worker"]
+        h = e[sc + 1]
+        e[sc + 2:sc + 2] = [dict(e="tick", t=h["t"], worker=w, fn=(e[t1[-1]]["fn"] + 1) % HYPER, dur=0),
+                            dict(e="hret", t=h["t"], worker=w)]
+    variant("tick-after-stop", "C09.threads.tick-after-stop", tick_after_stop)
+    variant("worker-exit-unasked", "C09.threads.worker-exit",
+            lambda e: e.insert(t1[1] + 2, dict(e="worker-exit", t=e[t1[1] + 1]["t"], worker=e[t1[1]]["worker"])))
+    return out
+
+
+def threads_stage(ctx):
+    """stop() / start() called by another thread at any instant (two-thread view of C09)."""
+    ctx.trusted += ["harness/py/vthreads.py (discrete-event simulator: real threads run one at a time, virtual "
+                    "clock, Event / Thread.join(timeout) stand-ins, fake links)"]
+    ctx.assumptions += ["two-thread view: Python code between two blocking points (Event.wait, Thread.join, the frame "
+                        "handler, time.sleep) takes no virtual time; threads due at the same instant run in a fixed "
+                        "order (controller first or last, both are exercised)",
+                        "a tick already due at the instant stop() is called may still fire; none becomes due later"]
+    rp = getattr(ctx, "replaying", None)
+    replay_only = None
+    if rp and isinstance(rp.get("replay"), dict) and rp["replay"].get("tscript"):
+        replay_only = rp["replay"]["tscript"]
+
+    # ---- MC (runs beside the simulation and the trace validation below) -------------
+    def model_checking():
+        out = []
+        cfg = ctx.pick("MC_ClckGenThreadsQ.cfg", "MC_ClckGenThreads.cfg")
+        # action coverage (vacuity guard) costs a factor of 2: thorough only
+        out.append((cfg, tlc.run("ClckGenThreads.tla", cfg, workers=4, timeout=1500, coverage=ctx.thorough)))
+        if ctx.thorough:
+            out.append(("hazard", tlc.run("ClckGenThreads.tla", "MC_ClckGenThreadsHazard.cfg", workers=2, timeout=600)))
+        return out
+
+    def model_checking_done(jobs):
+        for cfg, r in jobs:
+            if cfg == "hazard":
+                ctx.add_tlc("MC ClckGenThreadsHazard (stop() joining with a timeout: expected to be violated)", r)
+                ctx.extra["threads_join_timeout_hazard_found_by_tlc"] = (r.violation or {}).get("name")
+                if r.ok:
+                    raise tlc.MachineryError("the JoinTimeout hazard model passed: ClckGenThreads is blind to the zombie worker")
+                continue
+            ctx.add_tlc("MC %s (controller thread vs worker thread, stop() at any instant)" % cfg, r)
+            ctx.log("MC", cfg, r.summary())
+            if not r.ok:
+                ctx.mc_violation(cfg, r, signature="C09/threads.spec/%s" % r.violation["name"])
+            elif ctx.thorough:
+                need = ["NStart", "NStopCall", "EStopReturn", "NLoop", "NSleepStop", "NTick", "NHandlerEnd", "NRelink"]
+                dead = [a for a in need if r.coverage.get(a, (0, 0))[0] == 0]
+                if dead:
+                    raise tlc.MachineryError("actions never taken in %s: %s" % (cfg, dead))
+
+    from concurrent.futures import ThreadPoolExecutor
+    pool = ThreadPoolExecutor(max_workers=1)
+    mc = pool.submit(model_checking) if replay_only is None else None
+    try:
+        th_code_stage(ctx, replay_only)
+    finally:
+        jobs = mc.result() if mc is not None else []       # a TLC that cannot be run raises MachineryError here
+        pool.shutdown()
+    model_checking_done(jobs)
+
+
+def th_code_stage(ctx, replay_only):
+    # ---- the code under test on simulated threads -------------------------------
+    vt = load_vthreads()
+    try:
+        mod = vt.load_clck_gen(TOOLKIT)
+    except vt.RigError as e:
+        raise tlc.MachineryError(str(e))
+    try:
+        T = vt.calibrate(mod)
+    except vt.Stuck as e:
+        raise tlc.MachineryError("vthreads: %s" % e)
+    except vt.RigError as e:
+        ctx.violation("C09/crash/threads-calibration", "start / one tick / stop on simulated threads failed: %s" % e, None)
+        T = -1
+    Tg = T if 1000 < T < 100 * 1000 * 1000 else NOMINAL_T
+    if replay_only is not None:
+        scripts = [replay_only]
+    else:
+        sysd = th_systematic(ctx.rng, Tg)
+        if not ctx.thorough:
+            sysd = sysd[ctx.seed % 2::2]               # every other one; thorough runs them all (x several seeds)
+        else:
+            for rep in range(1, 6):
+                more = th_systematic(ctx.rng, Tg)
+                for s in more:
+                    s["id"] = "%s-v%d" % (s["id"], rep)
+                sysd += more
+        scripts = sysd + [th_random(ctx.rng, "q%d" % i, Tg) for i in range(ctx.pick(90, 6000))]
+    ctx.log("threads: running %d scripts through the real clck_gen.py on simulated threads (T=%s ns)" % (len(scripts), T))
+    byid = {}
+    traces = {}
+    obs = {}
+    for s in scripts:
+        ctx.count()
+        try:
+            tr, crash, anomalies = vt.run_script(mod, s, vt_limit=s.get("limit", vt.VT_LIMIT))
+        except vt.Stuck as e:
+            raise tlc.MachineryError("vthreads: script %s: %s" % (s["id"], e))
+        except vt.RigError as e:
+            raise tlc.MachineryError("vthreads: script %s: %s" % (s["id"], e))
+        byid[s["id"]] = (s, tr, anomalies)
+        if crash:
+            kind = crash.split(":")[0].split(" ")[-1]
+            ctx.violation("C09/crash/threads-%s" % kind, "script %s: %s" % (s["id"], crash),
+                          dict(tscript=s, events=tr["ev"][-20:]))
+            continue
+        if any(isinstance(x, int) and not isinstance(x, bool) and not (-2 ** 31 < x < 2 ** 31)
+               for e in tr["ev"] for x in e.values()):
+            raise tlc.MachineryError("threads script %s produced a value outside 32 bit" % s["id"])
+        traces.setdefault(tr["cfg"]["T"], []).append(tr)
+        o = th_observe(tr, Tg)
+        for k, n in o.items():
+            obs[k] = obs.get(k, 0) + n
+        if o["ticks"]:
+            ctx.distinct(json.dumps(["threads", s.get("kind"), s["tie"], [[op["op"], op.get("tick"), op.get("off"), op.get("dt")]
+                                                                            for op in s["ops"]]]))
+    ctx.extra["threads_observed"] = obs
+    if replay_only is None and not ctx.violations:
+        blind = [k for k in ("ticks", "inds", "stop_in_sleep", "stop_in_handler", "stop_gt2", "stop_gt10",
+                             "stop_at_tick_instant", "stop_at_handler_return", "stop_when_stopped", "restarts", "wraps",
+                             "stop_then_start_same_instant", "relinks") if obs.get(k, 0) == 0]
+        if blind:
+            raise tlc.MachineryError("threads scripts exercise too little: no %s" % blind)
+    if len(traces) > 3:
+        ctx.violation("C09/period/varies", "threads: first intervals differ between runs: %s ..." % sorted(traces)[:8],
+                      dict(intervals=sorted(traces)[:50]))
+        for Tk in sorted(traces, key=lambda k: -len(traces[k]))[3:]:
+            del traces[Tk]
+
+    # ---- binding self-test -----------------------------------------------------------
+    selftest = {}
+    if replay_only is None:
+        for Tk in sorted(traces, key=lambda k: -len(traces[k])):
+            for tr in traces[Tk]:
+                if byid[tr["id"]][2]:
+                    continue
+                st = th_selftest(tr)
+                if st:
+                    for name, (expect, t2) in st.items():
+                        selftest[name] = [expect, None]
+                        traces[Tk].append(t2)
+                    selftest["th-selftest-original"] = ["", None]
+                    traces[Tk].append(dict(id="th-selftest-original", cfg=dict(tr["cfg"]), ev=copy.deepcopy(tr["ev"])))
+                    break
+            if selftest:
+                break
+        if not selftest and not ctx.violations:
+            raise tlc.MachineryError("threads: no log suitable for the binding self-test")
+
+    # ---- TV ------------------------------------------------------------------------------
+    ntr = 0
+    for Tk in sorted(traces):
+        group = traces[Tk]
+        res, stats = tlc.validate_traces("ClckGenThreadsTrace.tla", "ClckGenThreadsTrace.cfg", group, scratch=ctx.scratch,
+                                         chunk="balance", parallel=ctx.pick(3, 4), timeout=3000)
+        real = len([t for t in group if t["id"] not in selftest])
+        ctx.add_tv("TV ClckGenThreadsTrace T=%d" % Tk, stats, real)
+        ntr += real
+        for v in res:
+            if v["id"] in selftest:
+                selftest[v["id"]][1] = v
+                continue
+            s, tr, anomalies = byid[v["id"]]
+            if v["reached"] == v["n"]:
+                for a in anomalies:
+                    ctx.violation("C09/threads.rig/%s" % a.split(":")[0], "script %s: %s" % (s["id"], a), dict(tscript=s))
+                continue
+            sig = th_classify(tr, v, Tk)
+            lo = max(0, v["reached"] - 8)
+            ctx.violation(sig, "threads log %s rejected at event %d/%d (%s): %s%s" %
+                          (v["id"], v["reached"] + 1, v["n"], v["tag"], json.dumps(tr["ev"][v["reached"]:v["reached"] + 1]),
+                           (" [rig: %s]" % ",".join(anomalies)) if anomalies else ""),
+                          dict(tscript=s, T=tr["cfg"]["T"], events_before=tr["ev"][lo:v["reached"]],
+                               rejected=tr["ev"][v["reached"]:v["reached"] + 2], verdict=v))
+    wrong = {k: (e, v and v["tag"]) for k, (e, v) in selftest.items()
+             if v is None or (e == "" and v["reached"] != v["n"]) or (e != "" and (v["reached"] == v["n"] or v["tag"] != e))}
+    if wrong and not ctx.violations:
+        raise tlc.MachineryError("threads trace spec judged corrupted logs wrongly (expected, got): %s" % wrong)
+    ctx.extra["threads_binding_selftest"] = {k: (v[1] or {}).get("tag") for k, v in selftest.items()}
+    ctx.extra["threads_scripts"] = len(scripts)
+    ctx.extra["threads_frame_interval_ns_of_code"] = T
+    for Tk in sorted(traces):
+        for t in traces[Tk][:1]:
+            ctx.sample(dict(id=t["id"], cfg=t["cfg"], events=t["ev"][:16]), limit=6)
+    ctx.log("threads TV: %d logs, %s" % (ntr, obs))
+    ctx.rule += ("; two-thread view: scripts of 1-3 start()/stop() epochs executed by the real CLCKGen on simulated "
+                 "threads, stop() placed in the sleep, at a tick instant (both orders), at the start / middle / end of "
+                 "handlers lasting from 1 us to 10.5 frame periods, restarts after 0 ns .. 5 periods; distinct by "
+                 "(duration name, phase, tie order, op list)")
